@@ -54,6 +54,18 @@ TRUTHY = [1, True, "x", [0], 2.5, -1]
 FALSY = [0, None, "", [], 0.0, False]
 
 
+def _as_container(items, salt):
+    """the same sequence as a list, a tuple, a one-shot generator or dict keys (constructors take any iterable)"""
+    kind = salt % 4
+    if kind == 0:
+        return list(items)
+    if kind == 1:
+        return tuple(items)
+    if kind == 2:
+        return (x for x in items)
+    return dict.fromkeys(items).keys() if len({id(x) for x in items}) == len(items) else list(items)
+
+
 def decode_adj(a):
     rows, i = [], 0
     while i < len(a):
@@ -208,11 +220,12 @@ class World:
             O(a[0]).remove_from_universe(O(self.NV + a[1]))
             return []
         if op == "vnew":
-            v = self._new_vertex(links=[L[e] for e in a], universes=[O(u) for u in b])
+            v = self._new_vertex(links=_as_container([L[e] for e in a], len(a) + 2 * len(b)),
+                                 universes=_as_container([O(u) for u in b], 2 * len(a) + len(b) + 1))
             return [self._reg_vertex(v)]
         if op == "unew":
             law = None if b[0] == 0 else self.LAW[b[0]]
-            u = Universe(vertices=[O(x) for x in a], laws=law)
+            u = Universe(vertices=_as_container([O(x) for x in a], len(a) + b[0]), laws=law)
             return [self._reg_universe(u, default_laws=(law is None))]
         if op == "setlaws":
             O(self.NV + a[0]).laws = None if a[1] == 0 else self.LAW[a[1]]
